@@ -168,6 +168,35 @@ def run_c09(rep):
     compile_tie(rep, "c09-compile", dict(hooks=0.95, join=0.5, conds=0.7))
 
 
+C10_SESSIONS = [
+    # (source, ops, {step index: text that must be shown by that step}) — sections seen one at a time, in order, also after a choice failed
+    (":: Start\n~ v = 0\ngo\n+ [in] -> J\n\n:: J\n~ v = v + 1\n~ k = 10 % (2 - v)\nS0\n+ [next] -> @join\n    b1\n@join\nS1\n+ [again] -> J\n+ [next2] -> @join\n    b2\n@join\nS2\n+ [x] -> Start\n",
+     [{"op": "choose", "i": 0}, {"op": "choose", "i": 0}, {"op": "choose", "i": 0}, {"op": "choose", "i": 1}], {1: "b1\nS1\n", 3: "b2\nS2\n"}),
+    (":: Start\n~ v = 0\ngo\n+ [in] -> J\n\n:: J\n~ v = v + 1\nS0\n+ [a] -> @join\n@join\nS1 {v}\n+ [b] -> @join\n    ~ w = 1 % (1 - v + 1)\n+ [c] -> @join\n@join\nS2\n+ [back] -> J\n",
+     [{"op": "choose", "i": 0}, {"op": "choose", "i": 0}, {"op": "choose", "i": 1}, {"op": "choose", "i": 0}, {"op": "choose", "i": 0}],
+     {1: "S1 1\n", 2: "S2\n", 3: "S0\n", 4: "S1 2\n"}),
+]
+
+
+def c10_sessions(rep):
+    n = 0
+    for src, ops, want in C10_SESSIONS:
+        c = corr_play.run_fixed(src, ops, case_id="c10-session")
+        n += 1
+        if "compile_error" in c or c["real"].get("status") != "ok":
+            rep.violations.append({"cls": None, "family": "c10-sessions", "what": "session does not run: " + str(c.get("compile_error") or c["real"])[:200], "source": src, "ops": ops})
+            continue
+        for k, text in want.items():
+            st = c["real"]["steps"][k]
+            got = (st["resp"].get("out") or {}).get("content") if "out" in st["resp"] else None
+            if got != text:
+                rep.violations.append({"cls": None, "family": "c10-sessions", "oracle": "sections in order",
+                                       "what": f"step {k} should show {text!r} (the block of the join choice, then the text up to the next marker); it answered {str(st['resp'])[:160]}",
+                                       "source": src, "ops": ops, "variant": "main"})
+    rep.coverage.setdefault("families", {})["c10-sessions"] = {"cases": n}
+    rep.coverage["evaluations"] = rep.coverage.get("evaluations", 0) + n
+
+
 def run_c10(rep):
     n, ops = sizes(rep, (400, 20), (6000, 60))
     families.play_family(rep, n, ops, features=dict(join=0.95, block_jumps=0.5, conds=0.7, one_time=0.5, hooks=0.3,
@@ -175,6 +204,7 @@ def run_c10(rep):
                          weights=dict(choose=70, goto=6, undo=7, redo=5, read=5, bad=3, save=1, load=1, fresh=1),
                          oracle_names=["oracle_c10"], known_classes=known_classes("C10"), label="c10")
     compile_tie(rep, "c10-compile", dict(join=0.95, block_jumps=0.5, conds=0.7, one_time=0.5, hooks=0.3))
+    c10_sessions(rep)
 
 
 def c08_ring_probes(rep):
